@@ -537,6 +537,72 @@ def inclusion_counterword(ctx, exe):
     ctx.correspond(exe, lines, kinds, label="inclusion-counterword", prop=prop, key_of=key_of, crosscheck=0)
 
 
+def spec_vs_net(ctx, exe):
+    """addr_spec (the hand-written regex the theorems quantify over) against Go's net package: whatever
+    net.ParseIP / SplitHostPort accept and whatever net.IP.String / net.TCPAddr.String print must be a word of
+    addr_spec. A miss is a gap of the specification (reported as `no longer shown`), not of safelog."""
+    rng = ctx.rng
+    n = 600 if ctx.tier == "quick" else 6000
+    cands = []
+    for _ in range(n):
+        a = address(rng)[0]
+        if rng.random() < 0.3:
+            b = bytearray(L1(a))
+            p = rng.randrange(len(b))
+            m = rng.random()
+            if m < 0.4:
+                b[p] = rng.choice(b"0123456789abcdefABCDEF:.[]")
+            elif m < 0.7:
+                del b[p]
+            else:
+                b.insert(p, rng.choice(b"0123456789abcdefF:."))
+            a = bytes(b).decode("latin1")
+        cands.append(L1(a))
+    rc, acc, err = vlib.run_impl(exe, ["%s accepts %s" % (AREA, hx(c)) for c in cands])
+    spec = vlib.run_model(["%s spec %s" % (AREA, hx(c)) for c in cands])
+    for c, a, sp in zip(cands, acc, spec):
+        ctx.count("spec accepts " + c.hex(), kind="spec-vs-net-accepts-" + ("accepted" if a == "1" else "rejected"))
+        if a == "1" and sp != "1":
+            ctx.not_shown("addr_spec does not contain %r, which Go's net package accepts" % c.decode("latin1"))
+    ips = []
+    for _ in range(n // 2):
+        if rng.random() < 0.25:
+            ips.append(bytes(rng.choice([0, 1, 9, 10, 99, 100, 255, rng.randrange(256)]) for _ in range(4)))
+        else:
+            g = [rng.choice([0, 0, 0, 1, 0xffff, 0xabcd, rng.randrange(65536)]) for _ in range(8)]
+            ips.append(b"".join(x.to_bytes(2, "big") for x in g))
+    ports = [rng.choice([0, 1, 80, 443, 65535, rng.randrange(65536)]) for _ in ips]
+    rc, pr, err = vlib.run_impl(exe, ["%s prints %s %d" % (AREA, hx(b), p) for b, p in zip(ips, ports)])
+    printed = [bytes.fromhex(x) for r in pr for x in r.split(" ")]
+    spec = vlib.run_model(["%s spec %s" % (AREA, hx(c)) for c in printed])
+    for c, sp in zip(printed, spec):
+        ctx.count("spec prints " + c.hex(), kind="spec-vs-net-printed")
+        if sp != "1":
+            ctx.not_shown("addr_spec does not contain %r, which Go's net package prints" % c.decode("latin1"))
+
+
+V0_WITNESSES = ["scrub " + hx(b"1.2.3.4 5.6.7.8\n"), "scrub " + hx(b"::a:b:c:d:e:f:abcd\n"), "scrub " + hx(b"[::1:2:3:4:5:6:7]\n"),
+                "write " + hx(b"1.2.3.4\n5.6.7.8\n"), "write " + hx(b"1.2.3.4\n") + "," + hx(b"5.6.7.8\n")]
+
+
+def pinned_witnesses(ctx, exe, ascii_cases):
+    """Evidence only (no effect on the verdict): the witnesses of the C07_v0_* theorems on the implementation.
+    When the implementation still behaves like the pinned code on all of them, the pinned-algorithm model
+    (scrub_v0 on the frozen pinned patterns) is also compared with it on the ASCII scrub cases."""
+    impl_lines = ["%s %s" % (AREA, w) for w in V0_WITNESSES]
+    v0_lines = [l.replace(" scrub ", " scrub0 ").replace(" write ", " write0 ") for l in impl_lines]
+    m0 = vlib.run_model(v0_lines)
+    rc, impl, err = vlib.run_impl(exe, impl_lines)
+    same = [a == b for a, b in zip(m0, impl)]
+    ctx.extra["pinned_witnesses"] = [dict(case=l, pinned_model=a, impl=b, impl_behaves_like_pinned=q)
+                                     for l, a, b, q in zip(impl_lines, m0, impl, same)]
+    if all(same) and len(impl) == len(impl_lines):
+        sub = ascii_cases[:1500]
+        m0 = vlib.run_model([l.replace(" scrub ", " scrub0 ") for l in sub])
+        rc, impl, err = vlib.run_impl(exe, sub)
+        ctx.extra["pinned_model_vs_impl"] = dict(cases=len(sub), disagreements=sum(1 for a, b in zip(m0, impl) if a != b))
+
+
 def run(ctx):
     ctx.trusted += ["harness/overlay/zz_verif/regex2coq (Go regexp/syntax parser -> Coq term) and the in-package pattern dump",
                     "Go's regexp engine: modelled by the leftmost-first backtracking matcher of coq/Model/Regex.v, tied by correspondence only",
@@ -557,7 +623,9 @@ def run(ctx):
 
     gen_scrub(ctx, add)
     ctx.correspond(exe, lines, kinds, label="scrub", prop=prop, key_of=key_of, crosscheck=12)
+    pinned_witnesses(ctx, exe, [l for l in lines if all(b < 0x80 for b in unhex(l.split(" ")[2][1:] or "-"))])
     inclusion_counterword(ctx, exe)
+    spec_vs_net(ctx, exe)
     # writes: output must not depend on the splitting
     lines, kinds, groups = [], [], {}
     gen_write(ctx, add, groups)
